@@ -42,9 +42,13 @@ pub struct HashSet {
     container: Container,
 }
 
+/// Smallest and largest table (as log2 of the slot count) a set can have: it starts at 2^5 and is
+/// promoted to an array once 2^(lg_config_k - 3) slots fill up (lg_config_k <= 21).
+const LG_INIT_SET_SIZE: usize = 5;
+const MAX_LG_SET_SIZE: usize = 18;
+
 impl Default for HashSet {
     fn default() -> Self {
-        const LG_INIT_SET_SIZE: usize = 5;
         Self::new(LG_INIT_SET_SIZE)
     }
 }
@@ -104,41 +108,49 @@ impl HashSet {
             .map_err(insufficient_data("coupon_count"))?;
         let coupon_count = coupon_count as usize;
 
-        if compact {
-            // Compact mode: only couponCount coupons are stored
-            // Create a new hash set and insert coupons one by one
-            let mut hash_set = HashSet::new(lg_arr);
-            for i in 0..coupon_count {
-                let coupon = cursor.read_u32_le().map_err(|_| {
-                    Error::insufficient_data(format!(
-                        "expected {coupon_count} coupons, failed at index {i}"
-                    ))
-                })?;
-                hash_set.update(coupon);
-            }
-            Ok(hash_set)
-        } else {
-            // Non-compact mode: full hash table with empty slots
-            let array_size = 1 << lg_arr;
-
-            // Read entire hash table including empty slots
-            let mut coupons = vec![0u32; array_size];
-            for (i, coupon) in coupons.iter_mut().enumerate() {
-                *coupon = cursor.read_u32_le().map_err(|_| {
-                    Error::insufficient_data(format!(
-                        "expected {array_size} coupons, failed at index {i}"
-                    ))
-                })?;
-            }
-
-            Ok(Self {
-                container: Container::from_coupons(
-                    lg_arr,
-                    coupons.into_boxed_slice(),
-                    coupon_count,
-                ),
-            })
+        if !(LG_INIT_SET_SIZE..=MAX_LG_SET_SIZE).contains(&lg_arr) {
+            return Err(Error::deserial(format!(
+                "set lg_arr must be in [{LG_INIT_SET_SIZE}, {MAX_LG_SET_SIZE}], got {lg_arr}"
+            )));
         }
+        let array_size = 1usize << lg_arr;
+        // A set always keeps at least one empty slot (it is resized at 75% load); without one the
+        // probe loop of `update` cannot terminate normally.
+        if coupon_count >= array_size {
+            return Err(Error::deserial(format!(
+                "set of {array_size} slots cannot hold {coupon_count} coupons"
+            )));
+        }
+
+        // Compact images store only the coupons, non-compact ones the whole table including empty
+        // slots. Either way the coupons are re-inserted so that every one of them sits on its own
+        // probe path, whatever produced the image.
+        let stored = if compact { coupon_count } else { array_size };
+        let mut hash_set = HashSet::new(lg_arr);
+        for i in 0..stored {
+            let coupon = cursor.read_u32_le().map_err(|_| {
+                Error::insufficient_data(format!(
+                    "expected {stored} coupons, failed at index {i}"
+                ))
+            })?;
+            if coupon == COUPON_EMPTY {
+                if compact {
+                    return Err(Error::deserial("empty coupon in a compact set image"));
+                }
+                continue;
+            }
+            if hash_set.container.len() + 1 >= array_size {
+                return Err(Error::deserial("set image holds more coupons than slots"));
+            }
+            hash_set.update(coupon);
+        }
+        if hash_set.container.len() != coupon_count {
+            return Err(Error::deserial(format!(
+                "set image declares {coupon_count} coupons but holds {}",
+                hash_set.container.len()
+            )));
+        }
+        Ok(hash_set)
     }
 
     /// Serialize a HashSet to bytes
